@@ -12,7 +12,9 @@ import (
 
 	"github.com/go-faster/yaml"
 
+	"github.com/ogen-go/ogen"
 	"github.com/ogen-go/ogen/jsonpointer"
+	"github.com/ogen-go/ogen/openapi/parser"
 
 	"verif/internal/bx"
 	"verif/internal/core"
@@ -427,6 +429,9 @@ func Check(r *core.Run) error {
 			r.Violate(what+" is outside Allowed(doc, ptr) of spec/JSONPointer.tla", map[string]any{"obs": o})
 		}
 	}
+	if err := oasRoute(r); err != nil {
+		return err
+	}
 	if r.Thorough() {
 		// binding self-test: corrupt one recorded path
 		for _, o := range all {
@@ -530,4 +535,312 @@ func Replay(r *core.Run, path string) error {
 		}
 	}
 	return nil
+}
+
+// ---- the same relation through the OpenAPI parser's reference resolution -------------
+
+// docOf converts a parsed document to the node records of spec/JSONPointer.tla.
+func docOf(n *yaml.Node) Doc {
+	if n.Kind == yaml.DocumentNode && len(n.Content) > 0 {
+		n = n.Content[0]
+	}
+	switch n.Kind {
+	case yaml.MappingNode:
+		d := Doc{K: "map", Keys: [][]int{}, Vals: []Doc{}}
+		for i := 0; i+1 < len(n.Content); i += 2 {
+			d.Keys = append(d.Keys, bx.Ints(n.Content[i].Value))
+			d.Vals = append(d.Vals, docOf(n.Content[i+1]))
+		}
+		return d
+	case yaml.SequenceNode:
+		d := Doc{K: "seq", Keys: [][]int{}, Vals: []Doc{}}
+		for _, c := range n.Content {
+			d.Vals = append(d.Vals, docOf(c))
+		}
+		return d
+	}
+	return leaf
+}
+
+// oasRoute checks openapi/parser's resolution of parameter references (resolveComponent:
+// a lookup by name for "#/components/parameters/<name>", jsonpointer.Resolve on the raw
+// document otherwise) against the same Allowed(doc, ptr): parameter objects with
+// adversarial names sit under components.parameters, under an extension with the same
+// inner layout and inline in an operation; every one is referred to by its exact pointer
+// (plain and needlessly percent-encoded fragment) and by single-edit mutants, one
+// document per reference; the parameter the operation ends up with tells the node.
+func oasRoute(r *core.Run) error {
+	names := []string{"limit", "0", "1", "a~b", "a/b", "%41", "A", "", "parameters", "m n", "00", "~0", "~1"}
+	type place struct {
+		ptr    string // RFC 6901 pointer (plain form) of the parameter object
+		marker string
+	}
+	var places []place
+	comp, shared := map[string]any{}, map[string]any{}
+	k := 0
+	param := func() (map[string]any, string) {
+		k++
+		m := fmt.Sprintf("m%d", k)
+		return map[string]any{"name": m, "in": "query", "schema": map[string]any{"type": "string"}}, m
+	}
+	// component names must match ^[a-zA-Z0-9.\-_]+$ (OpenAPI); the extension holds every name
+	for _, n := range []string{"limit", "0", "1", "A", "parameters", "00", "a.b", "-", "_"} {
+		po, m := param()
+		comp[n] = po
+		places = append(places, place{"/components/parameters/" + escTok(n), m})
+	}
+	for _, n := range append(names, "a.b", "-", "_") {
+		po, m := param()
+		shared[n] = po
+		places = append(places, place{"/x-shared/parameters/" + escTok(n), m})
+	}
+	// schemas under an extension, told apart by maxLength; referred to from a response
+	// directly and through a component that is itself a reference
+	defs := map[string]any{}
+	type splace struct {
+		ptr string
+		max int
+	}
+	var splaces []splace
+	for i, n := range append(names, "a%b", "a%25b", "a.b") {
+		defs[n] = map[string]any{"type": "string", "maxLength": 100 + i}
+		splaces = append(splaces, splace{"/x-defs/" + escTok(n), 100 + i})
+	}
+	in0, m0 := param()
+	in1, m1 := param()
+	places = append(places, place{"/paths/~1inline/get/parameters/0", m0}, place{"/paths/~1inline/get/parameters/1", m1})
+	ok200 := map[string]any{"200": map[string]any{"description": "ok"}}
+	base := func(ref string, nested bool) map[string]any {
+		nest := map[string]any{}
+		if strings.HasPrefix(ref, "S:") {
+			// a schema reference
+			ref = ref[2:]
+			schemas := map[string]any{}
+			if nested {
+				schemas["N"] = map[string]any{"$ref": ref}
+				ref = "#/components/schemas/N"
+			}
+			return map[string]any{"openapi": "3.0.3", "info": map[string]any{"title": "t", "version": "1"},
+				"paths": map[string]any{
+					"/use": map[string]any{"get": map[string]any{"operationId": "use", "responses": map[string]any{"200": map[string]any{"description": "ok",
+						"content": map[string]any{"application/json": map[string]any{"schema": map[string]any{"$ref": ref}}}}}}},
+				},
+				"components": map[string]any{"schemas": schemas},
+				"x-defs":     defs,
+			}
+		}
+		if nested {
+			// the operation refers to an object that is itself a reference to ref
+			nest["n"] = map[string]any{"$ref": ref}
+			ref = "#/x-nest/parameters/n"
+		}
+		return map[string]any{"openapi": "3.0.3", "x-nest": map[string]any{"parameters": nest}, "info": map[string]any{"title": "t", "version": "1"},
+			"paths": map[string]any{
+				"/inline": map[string]any{"get": map[string]any{"operationId": "inline", "parameters": []any{in0, in1}, "responses": ok200}},
+				"/use":    map[string]any{"get": map[string]any{"operationId": "use", "parameters": []any{map[string]any{"$ref": ref}}, "responses": ok200}},
+			},
+			"components": map[string]any{"parameters": comp},
+			"x-shared":   map[string]any{"parameters": shared},
+		}
+	}
+	pct := func(p string) string { // needless percent-encoding of every third byte that may be encoded
+		var b strings.Builder
+		for i := 0; i < len(p); i++ {
+			if c := p[i]; i%3 == 2 && c != '/' && c != '%' {
+				fmt.Fprintf(&b, "%%%02X", c)
+			} else if c == '%' {
+				b.WriteString("%25")
+			} else if c == ' ' {
+				b.WriteString("%20")
+			} else {
+				b.WriteByte(c)
+			}
+		}
+		return b.String()
+	}
+	frag := func(p string) string { // the minimal fragment spelling
+		return strings.NewReplacer("%", "%25", " ", "%20").Replace(p)
+	}
+	type cse struct {
+		ref    string
+		must   bool
+		nested bool
+	}
+	var cases []cse
+	rng := rand.New(rand.NewPCG(uint64(r.Seed), 0xC16A))
+	for _, pl := range places {
+		cases = append(cases, cse{"#" + frag(pl.ptr), true, false}, cse{"#" + pct(pl.ptr), true, false}, cse{"#" + frag(pl.ptr), true, true}, cse{"#" + pct(pl.ptr), true, true})
+		for _, mu := range mutants(frag(pl.ptr), rng, 4) {
+			cases = append(cases, cse{"#" + mu, false, false})
+		}
+		cases = append(cases, cse{"#" + frag(pl.ptr) + "/", false, false})
+	}
+	for _, pl := range splaces {
+		for _, nested := range []bool{false, true} {
+			cases = append(cases, cse{"S:#" + frag(pl.ptr), true, nested}, cse{"S:#" + pct(pl.ptr), true, nested})
+		}
+	}
+	byMarker := map[string]string{}
+	for _, pl := range places {
+		byMarker[pl.marker] = pl.ptr
+	}
+	byMax := map[int]string{}
+	for _, pl := range splaces {
+		byMax[pl.max] = pl.ptr
+	}
+	var lines [][]byte
+	var desc []string
+	nNode := 0
+	for _, c := range cases {
+		doc := base(c.ref, c.nested)
+		text, err := json.Marshal(doc)
+		if err != nil {
+			return err
+		}
+		root, err := parse(string(text))
+		if err != nil {
+			return err
+		}
+		kind, path, note := func() (kind string, path []int, note string) {
+			path = []int{}
+			defer func() {
+				if e := recover(); e != nil {
+					kind, note = "panic", fmt.Sprint(e)
+				}
+			}()
+			spec, err := ogen.Parse(text)
+			if err != nil {
+				return "err", path, err.Error()
+			}
+			api, err := parser.Parse(spec, parser.Settings{})
+			if err != nil {
+				return "err", path, err.Error()
+			}
+			for _, op := range api.Operations {
+				if op.OperationID != "use" {
+					continue
+				}
+				if strings.HasPrefix(c.ref, "S:") {
+					for _, resp := range op.Responses.StatusCode {
+						for _, m := range resp.Content {
+							if m.Schema == nil || m.Schema.MaxLength == nil {
+								return "foreign", path, "schema without the marker"
+							}
+							ptr, ok := byMax[int(*m.Schema.MaxLength)]
+							if !ok {
+								return "foreign", path, "unknown marker"
+							}
+							target, err := jsonpointerWalk(root, ptr)
+							if err != nil {
+								return "foreign", path, err.Error()
+							}
+							p, ok := pathOf(root, target)
+							if !ok {
+								return "foreign", path, "no path"
+							}
+							return "node", p, fmt.Sprintf("maxLength %d", *m.Schema.MaxLength)
+						}
+					}
+					return "err", path, "no response schema"
+				}
+				if len(op.Parameters) != 1 {
+					return "err", path, fmt.Sprintf("%d parameters", len(op.Parameters))
+				}
+				ptr, ok := byMarker[op.Parameters[0].Name]
+				if !ok {
+					return "foreign", path, "parameter " + op.Parameters[0].Name
+				}
+				target, err := jsonpointerWalk(root, ptr)
+				if err != nil {
+					return "foreign", path, err.Error()
+				}
+				p, ok := pathOf(root, target)
+				if !ok {
+					return "foreign", path, "no path"
+				}
+				return "node", p, op.Parameters[0].Name
+			}
+			return "err", path, "operation not found"
+		}()
+		if kind == "node" {
+			nNode++
+			r.Nontrivial("oas|" + ptrClass(c.ref) + "|" + kind)
+		}
+		b, _ := json.Marshal(map[string]any{"k": "oas", "d": 0, "doc": docOf(root), "ptr": bx.Ints(strings.TrimPrefix(c.ref, "S:")), "kind": kind, "path": path, "must": c.must})
+		lines = append(lines, b)
+		via := ""
+		if c.nested {
+			via = " reached through another reference"
+		}
+		what := "parameter"
+		if strings.HasPrefix(c.ref, "S:") {
+			what = "schema"
+		}
+		desc = append(desc, fmt.Sprintf("openapi parser: %s $ref %q%s -> %s %v (%s)", what, strings.TrimPrefix(c.ref, "S:"), via, kind, path, firstLine(note)))
+	}
+	r.Cov("openapi_parameter_refs", len(cases))
+	r.Cov("openapi_parameter_refs_resolved", nNode)
+	r.AddEvals(int64(len(cases)))
+	vs, err := obs.Check(r, lines, obs.CheckOpts{Module: "JSONPointerCheck", Cfg: verdictCfg(r), ChunkSize: 200, Parallel: 8})
+	if err != nil {
+		return err
+	}
+	for _, v := range vs {
+		switch {
+		case v.Kind == "drift":
+			r.Drift(desc[v.Index])
+		case strings.HasPrefix(v.Kind, "known="):
+			r.KnownHit(strings.TrimPrefix(v.Kind, "known="), desc[v.Index])
+		default:
+			r.Violate(desc[v.Index]+": "+v.Kind, map[string]any{"ref": cases[v.Index].ref, "kind": "oas"})
+		}
+	}
+	return nil
+}
+
+// jsonpointerWalk is the harness's own plain RFC 6901 evaluation, used only to find the
+// node of a pointer the harness built itself (no escapes beyond ~0 / ~1).
+func jsonpointerWalk(root *yaml.Node, ptr string) (*yaml.Node, error) {
+	n := root
+	if n.Kind == yaml.DocumentNode && len(n.Content) > 0 {
+		n = n.Content[0]
+	}
+	if ptr == "" {
+		return n, nil
+	}
+	for _, tok := range strings.Split(ptr[1:], "/") {
+		tok = strings.ReplaceAll(strings.ReplaceAll(tok, "~1", "/"), "~0", "~")
+		switch n.Kind {
+		case yaml.MappingNode:
+			found := false
+			for i := 0; i+1 < len(n.Content); i += 2 {
+				if n.Content[i].Value == tok {
+					n, found = n.Content[i+1], true
+					break
+				}
+			}
+			if !found {
+				return nil, fmt.Errorf("no member %q", tok)
+			}
+		case yaml.SequenceNode:
+			i, err := strconv.Atoi(tok)
+			if err != nil || i < 0 || i >= len(n.Content) {
+				return nil, fmt.Errorf("no index %q", tok)
+			}
+			n = n.Content[i]
+		default:
+			return nil, fmt.Errorf("scalar at %q", tok)
+		}
+	}
+	return n, nil
+}
+
+func firstLine(s string) string {
+	if i := strings.IndexByte(s, '\n'); i >= 0 {
+		s = s[:i]
+	}
+	if len(s) > 160 {
+		s = s[:160]
+	}
+	return s
 }
